@@ -74,6 +74,10 @@ CHECKS['C19'] = dict(cat='exploration', ref='4 C19',
    text='Black-box monitor on the command line of the working tree: subprocess runs over all 16 debug-flag combinations x stdout/-o x files/stdin x 1-3 sources for generated programs (incl. atoms with line breaks, non-ASCII and control characters) and the sample files; exit status, stdout, the -o file (pre-filled with junk) and stderr are compared with the library output (byte-identical without debug flags, identical modulo "#" lines with them, loadable Python) and corrupted sources must give a non-zero exit with file name and line:column.',
    note='Trusted: compile_prolog_from_file as the reference for the CLI; comment lines = lines starting with "#"; LANG=C.UTF-8.',
    tech='black-box differential monitoring of CLI subprocesses against the library over all flag/I-O configurations')
+CHECKS['C17'] = dict(cat='fault_enumeration', ref='4 C17',
+   text='Every (program, recursion limit) pair of a contiguous limit range (so the strike point sweeps over every frame kind) is executed in forked children, combined with projection functions raising at the k-th answer (custom exception, RuntimeError, StopIteration, KeyboardInterrupt) and with the generator passed inline or held by the caller; hooks record every sys.setrecursionlimit call, the limit before/after, the binding state of all registered Variables after finalisation, unraisable events and the child exit status. The result must be a prefix of the reference answers and complete whenever a direct enumeration under the same limit at the same stack depth completes.',
+   note='Trusted: reference interpreters A and B for the answer sequence; the observer inside the projection is iterative (reads binding cells) so it is not itself subject to the lowered limit. Limits above 1000 are outside the explored space (CPython aborts when closing very deep generator chains).',
+   tech='fault enumeration over recursion limits and projection faults in forked children with hooks on sys.setrecursionlimit and the Variable registry')
 PENDING = {}
 
 def main():
